@@ -305,7 +305,57 @@ WF_CONE = [("contracts.parse", PARSE_V23), ("contracts.init", INIT_V23),
            ("contracts.cvss3", V3_SCORING), ("contracts.cvss2", V2_SCORING), ("contracts.cvss4", V4_SCORING)]
 
 
+def edit_neighbourhood(rng, n_seeds, per_seed):
+    """strings within one edit of valid vectors: character insert / delete / replace, field drop /
+    duplicate / swap / transplant, prefix damage"""
+    alphabet = ["/", ":", "X", "x", " ", "{", "}", "{0}", "0", "1", "\u0661", "\uff10", "N", "\n", "\t", "é", "", "ND"]
+    out = []
+    gens = [("2", v2_random), ("3", v3_random), ("4", v4_random)]
+    for ver, gen in gens:
+        seeds = gen(rng, n_seeds)
+        others = {"2": v3_random(rng, 3), "3": v4_random(rng, 3), "4": v2_random(rng, 3)}[ver]
+        for s in seeds:
+            out.append((ver, s))
+            for _ in range(per_seed):
+                k = rng.random()
+                i = rng.randrange(len(s) + 1)
+                if k < 0.25:
+                    t = s[:i] + rng.choice(alphabet) + s[i:]
+                elif k < 0.45:
+                    t = s[:i] + s[i + 1:]
+                elif k < 0.7:
+                    t = s[:i] + rng.choice(alphabet) + s[i + 1:]
+                else:
+                    fs = s.split("/")
+                    j = rng.randrange(len(fs))
+                    op = rng.random()
+                    if op < 0.25:
+                        fs = fs[:j] + fs[j + 1:]
+                    elif op < 0.5:
+                        fs = fs[:j] + [fs[j]] + fs[j:]
+                    elif op < 0.75 and len(fs) > 1:
+                        l = rng.randrange(len(fs))
+                        fs[j], fs[l] = fs[l], fs[j]
+                    else:
+                        fs.insert(j, rng.choice(rng.choice(others).split("/")))
+                    t = "/".join(fs)
+                out.append((ver, t))
+            # prefix damage
+            if ver != "2":
+                for bad in ("CVSS:3.2/", "CVSS:4.1/", "cvss:3.1/", "CVSS:3.\u0661/", "CVSS:3.\uff10/", "CVSS:3.1", "", "CVSS:3.1//"):
+                    out.append((ver, bad + s.split("/", 1)[1]))
+    return out
+
+
 class C04(VectorProperty):
+    def bounded(self, tier, seed):
+        rng = random.Random(seed)
+        strs = edit_neighbourhood(rng, 25 if tier == "quick" else 200, 120 if tier == "quick" else 300)
+        return [self.job(ver, s) for ver, s in strs], "%d strings: valid vectors and their one-edit neighbourhood (characters incl. braces, whitespace, non-ASCII digits; field drop/duplicate/swap/transplant; damaged prefixes)" % len(strs)
+
+    def widen(self, o, tier):
+        return self.bounded(tier, 1)[0]
+
     id = "C04"
     native = "C04"
     trusted = ("A0", "A1", "A7")
@@ -323,7 +373,14 @@ class C05(VectorProperty):
         ["scores", "severities", "clean_vector", "rh_vector", "temporal_vector", "environmental_vector", "__eq__", "__hash__"]))
 
 
+def reparse_jobs(kind, versions=("2", "3", "4")):
+    return lemma_jobs("lemmas.reparse", kind, [{"version": v} for v in versions])
+
+
 class C07(VectorProperty):
+    def jobs(self, tier):
+        return VectorProperty.jobs(self, tier) + reparse_jobs("reparse")
+
     id = "C07"
     native = "C07"
     trusted = ("A0", "A1", "FD")
@@ -333,7 +390,8 @@ class C07(VectorProperty):
 
 class C08(VectorProperty):
     def jobs(self, tier):
-        return VectorProperty.jobs(self, tier) + lemma_jobs("lemmas.regex", "emitted_in_official", [{"version": v} for v in ("2", "3.0", "3.1", "4")])
+        return (VectorProperty.jobs(self, tier) + lemma_jobs("lemmas.regex", "emitted_in_official", [{"version": v} for v in ("2", "3.0", "3.1", "4")])
+                + reparse_jobs("reparse"))
 
     id = "C08"
     native = "C08"
@@ -376,15 +434,23 @@ class C11(VectorProperty):
 
 class C12(VectorProperty):
     wf = True
+
+    def jobs(self, tier):
+        return VectorProperty.jobs(self, tier) + reparse_jobs("roundtrip")
+
     id = "C12"
     native = "C12"
     trusted = ("A0", "A1", "A3", "FD")
     technique = "rh_vector postcondition, from_rh_vector contract with float() as an assumed contract"
-    contracts = split_by_module(acc(["rh_vector"]))
+    contracts = split_by_module(acc(["rh_vector"])) + [("contracts.init", [("cvss2", "CVSS2.from_rh_vector"), ("cvss3", "CVSS3.from_rh_vector"), ("cvss4", "CVSS4.from_rh_vector")])]
 
 
 class C15(VectorProperty):
     wf = True
+
+    def jobs(self, tier):
+        return VectorProperty.jobs(self, tier) + reparse_jobs("reassemble", ("2", "3"))
+
     id = "C15"
     native = "C15"
     trusted = ("A0", "A1", "FD")
